@@ -589,7 +589,7 @@ def _expand_conditional_expressions(fn):
         if isinstance(st, ast.Return):
           a, b = ast.Return(value=v.body), ast.Return(value=v.orelse)
         elif isinstance(st, ast.Assign) and len(st.targets) == 1 and isinstance(
-            st.targets[0], ast.Name):
+            st.targets[0], (ast.Name, ast.Subscript, ast.Attribute)):
           a = ast.Assign(targets=[st.targets[0]], value=v.body)
           b = ast.Assign(targets=[copy.deepcopy(st.targets[0])],
                          value=v.orelse)
